@@ -164,6 +164,11 @@ Definition view := (text * text * list N * list N * text * list N * list N * lis
 Definition view_of (b : ibuf) : view :=
   (original b, modified b, m2o b, m2o_2 b, mod_chars b, mod_c2b b, mod_b2c b, mod_bow b, mod_cat b, mod_cat_continuity b).
 
+(* outcome of a step: Ok, an error value, a panic *)
+Inductive result := ROk | RErr | RPanic.
+(* outcome of the chain of path-rewrite plugins *)
+Inductive pwres := WOk (p : list rnode) | WErr | WPanic.
+
 Record plugin := mkPlugin {
   uses_chars : bool;
   p_run : text -> list N -> text -> option (list edit)   (* reads modified, m2o, mod_chars; None = Err *)
@@ -178,7 +183,7 @@ Record core_out := mkCO {
 
 Record env := mkEnv {
   e_plugins : list plugin;                                   (* input text plugins, in order *)
-  e_resolve : text -> list N -> list edit -> text * list N * N;   (* edit::resolve_edits: text and map appended to the targets, size *)
+  e_resolve : text -> list N -> list edit -> option (text * list N * N);   (* edit::resolve_edits: text and map appended to the targets, size; None = it panics (slice off a boundary / out of range) *)
   e_cat : N -> N;                                            (* character category *)
   e_c2b_body : text -> list N;  e_b2c_body : text -> list N;  e_b2c_last : text -> N;
   e_bow : text -> list bool -> list bool;                    (* build's BOW loop over the resized mod_bow *)
@@ -186,7 +191,7 @@ Record env := mkEnv {
   e_ob2c : text -> list N -> list N;                         (* fill_orig_b2c over the resized m2o_2 *)
   e_core : view -> N -> rows3 -> core_out;                   (* build_lattice after Lattice::reset (dictionary + OOV + Viterbi) *)
   e_node : view -> N -> rows3 -> N -> rnode;                 (* resolve_best_path: result node of a path id (word info by subset) *)
-  e_prw : view -> N -> rows3 -> list rnode -> option (list rnode);   (* all path rewrite plugins; None = Err *)
+  e_prw : view -> N -> rows3 -> list rnode -> pwres;            (* all path rewrite plugins *)
   e_split : tmode -> N -> view -> list rnode -> option (list rnode); (* split_path = Model.Split.tokenize_mode; None = panic *)
   e_split_into : tmode -> N -> view -> rnode -> option (option (list rnode)); (* None = panic, Some None = no units *)
   e_lookup : text -> N -> view -> list rnode;                (* MorphemeList::lookup: nodes pushed *)
@@ -203,7 +208,7 @@ Definition USIZE_MAX : N := 18446744073709551615.
 Definition ib_reset (F : facts) (b : ibuf) : ibuf := ib_clear_all (f_ib_reset F) b.
 Definition push_str (t : text) (b : ibuf) : ibuf := set_original (original b ++ t) b.
 
-(* every step returns (succeeded?, buffer) *)
+(* start_build returns (succeeded?, buffer), the editing steps (outcome, buffer) *)
 Definition start_build (F : facts) (b : ibuf) : bool * ibuf :=
   if guard_eval (f_sb_guard F) (Model.Split.blen (original b)) then (false, b)
   else
@@ -213,29 +218,35 @@ Definition start_build (F : facts) (b : ibuf) : bool * ibuf :=
 Definition refresh_chars (b : ibuf) : ibuf :=
   if is_nil (mod_chars b) then set_mod_chars (mod_chars b ++ modified b) b else b.
 
-Definition commit (F : facts) (E : env) (b : ibuf) : bool * ibuf :=
-  if is_nil (replaces b) then (true, b)
+Definition commit (F : facts) (E : env) (b : ibuf) : result * ibuf :=
+  if is_nil (replaces b) then (ROk, b)
   else
     let b1 := ib_clear_all (f_commit F) b in
-    let '(tgt, tmap, sz) := e_resolve E (modified b1) (m2o b1) (replaces b1) in
-    (* resolve_edits appends to the two targets and drains the edit list *)
-    let b2 := set_replaces [] (set_m2o_2 (m2o_2 b1 ++ tmap) (set_modified_2 (modified_2 b1 ++ tgt) b1)) in
-    if guard_eval (f_commit_guard F) sz then (false, b2)
-    else (true, set_m2o_2 (m2o b2) (set_m2o (m2o_2 b2) (set_modified_2 (modified b2) (set_modified (modified_2 b2) b2)))).
+    match e_resolve E (modified b1) (m2o b1) (replaces b1) with
+    | None =>
+        (* a panic inside resolve_edits: the Drain of the edit list empties it while unwinding; the two scratch targets
+           hold whatever was appended (nothing reads them before they are cleared again) *)
+        (RPanic, set_replaces [] b1)
+    | Some (tgt, tmap, sz) =>
+      (* resolve_edits appends to the two targets and drains the edit list *)
+      let b2 := set_replaces [] (set_m2o_2 (m2o_2 b1 ++ tmap) (set_modified_2 (modified_2 b1 ++ tgt) b1)) in
+      if guard_eval (f_commit_guard F) sz then (RErr, b2)
+      else (ROk, set_m2o_2 (m2o b2) (set_m2o (m2o_2 b2) (set_modified_2 (modified b2) (set_modified (modified_2 b2) b2))))
+    end.
 
 (* InputTextPlugin::rewrite = refresh_chars (if the plugin uses chars) + with_editor *)
-Definition plugin_step (F : facts) (E : env) (p : plugin) (b : ibuf) : bool * ibuf :=
+Definition plugin_step (F : facts) (E : env) (p : plugin) (b : ibuf) : result * ibuf :=
   let b1 := if uses_chars p then refresh_chars b else b in
   match p_run p (modified b1) (m2o b1) (mod_chars b1) with
-  | None => (false, ib_clear_all (f_rollback F) b1)
+  | None => (RErr, ib_clear_all (f_rollback F) b1)
   | Some es => commit F E (set_replaces (replaces b1 ++ es) b1)
   end.
 
-Fixpoint rewrite_input (F : facts) (E : env) (ps : list plugin) (b : ibuf) : bool * ibuf :=
+Fixpoint rewrite_input (F : facts) (E : env) (ps : list plugin) (b : ibuf) : result * ibuf :=
   match ps with
-  | [] => (true, b)
-  | p :: r => let '(ok, b') := plugin_step F E p b in
-              if ok then rewrite_input F E r b' else (false, b')
+  | [] => (ROk, b)
+  | p :: r => let '(st, b') := plugin_step F E p b in
+              match st with ROk => rewrite_input F E r b' | _ => (st, b') end
   end.
 
 Definition fill_orig_b2c (F : facts) (E : env) (b : ibuf) : ibuf :=
@@ -283,8 +294,6 @@ Definition tok_reset (F : facts) (s : tok) : tok :=
   mkTok (if mem_s "input" (f_tok_reset F) then ib_reset F (input s) else input s) (debug s) (mode s)
         (if mem_s "oov" (f_tok_reset F) then [] else oov s) (lat s) (top_path_ids s) tp (subset s).
 
-Inductive result := ROk | RErr | RPanic.
-
 Definition with_input (b : ibuf) (s : tok) : tok :=
   mkTok b (debug s) (mode s) (oov s) (lat s) (top_path_ids s) (top_path s) (subset s).
 
@@ -304,8 +313,9 @@ Definition analysis_phase (F : facts) (E : env) (s : tok) : result * tok :=
     let all_ids := rev (top_path_ids s ++ ids) in
     let path1 := path0 ++ map (e_node E v (subset s) (co_rows co)) all_ids in
     match e_prw E v (subset s) (co_rows co) path1 with
-    | None => (RErr, mkTok b (debug s) (mode s) oov2 lat2 [] None (subset s))
-    | Some path2 =>
+    | WErr => (RErr, mkTok b (debug s) (mode s) oov2 lat2 [] None (subset s))
+    | WPanic => (RPanic, mkTok b (debug s) (mode s) oov2 lat2 [] None (subset s))
+    | WOk path2 =>
       match e_split E (mode s) (subset s) v path2 with
       | None => (RPanic, mkTok b (debug s) (mode s) oov2 lat2 [] None (subset s))
       | Some path3 => (ROk, mkTok b (debug s) (mode s) oov2 lat2 [] (Some path3) (subset s))
@@ -316,11 +326,14 @@ Definition analysis_phase (F : facts) (E : env) (s : tok) : result * tok :=
 Definition do_tokenize (F : facts) (E : env) (s : tok) : result * tok :=
   let '(ok1, b1) := start_build F (input s) in
   if negb ok1 then (RErr, with_input b1 s) else
-  let '(ok2, b2) := rewrite_input F E (e_plugins E) b1 in
-  if negb ok2 then (RErr, with_input b2 s) else
-  let b3 := build F E b2 in
-  if is_nil (modified b3) then (ROk, with_input b3 s)
-  else analysis_phase F E (with_input b3 s).
+  let '(st2, b2) := rewrite_input F E (e_plugins E) b1 in
+  match st2 with
+  | ROk =>
+      let b3 := build F E b2 in
+      if is_nil (modified b3) then (ROk, with_input b3 s)
+      else analysis_phase F E (with_input b3 s)
+  | _ => (st2, with_input b2 s)
+  end.
 
 (* tok.reset().push_str(t); tok.do_tokenize() *)
 Definition analyse (F : facts) (E : env) (t : text) (s : tok) : result * tok :=
@@ -468,8 +481,8 @@ Definition env_of (tbl : list trow) : env :=
          end
        else None)]
     (fun md _ _ => match tfind tbl md with
-                   | Some r => match r_norm r with Some (tgt, tmap) => (tgt, tmap, Model.Split.blen tgt) | None => ([], [], 0) end
-                   | None => ([], [], 0)
+                   | Some r => match r_norm r with Some (tgt, tmap) => Some (tgt, tmap, Model.Split.blen tgt) | None => Some ([], [], 0) end
+                   | None => Some ([], [], 0)
                    end)
     (fun _ => 0)
     (fun cs => map (fun k => Model.Split.c2b cs (N.of_nat k)) (seq 0 (List.length cs)))
@@ -488,8 +501,8 @@ Definition env_of (tbl : list trow) : env :=
                      | None => POISON
                      end)
     (fun v _ _ path => match tfind tbl (v_orig v) with
-                       | Some r => if r_late r then None else Some path
-                       | None => Some path
+                       | Some r => if r_late r then WErr else WOk path
+                       | None => WOk path
                        end)
     (fun m _ v path => match m with
                        | MC => Some path
